@@ -295,6 +295,29 @@ func runEffects(o *opts) {
 			rmrf(filepath.Dir(p.CacheDir))
 		}
 	}
+	// a project whose cache directory does not exist yet (a fresh clone: .dud/cache is git-ignored):
+	// read-only commands do not create it
+	for k := 0; k < 2; k++ {
+		base := scenarioDir(o, "effects", 900+k)
+		p := newProject(o, base, []string{"in", "rel"}[k])
+		p.init()
+		must(os.WriteFile(filepath.Join(p.Root, "in.txt"), []byte("input"), 0o644))
+		must(os.WriteFile(filepath.Join(p.Root, "out.txt"), []byte("output"), 0o644))
+		p.writeStage("s.yaml", &StageRec{Cmd: "true", In: []Art{{Path: "in.txt"}}, Out: []Art{{Path: "out.txt"}}})
+		if res := p.dud("", "stage", "add", "s.yaml"); res.Exit != 0 {
+			must(fmt.Errorf("effects setup: %s", res.Stderr))
+		}
+		os.Remove(p.CacheDir)
+		for _, c := range []Cmd{{Kind: "status"}, {Kind: "graph"}, {Kind: "status", Targets: []string{"s.yaml"}}} {
+			t, _ := p.do(c, nil, want(2, 13), nil, nil)
+			t.Info["scenario"] = 900 + k
+			t.Info["step"] = c.Kind + " in a project without a cache directory"
+			t.Info["shape"] = "no-cache-directory"
+			all = append(all, t)
+		}
+		s.count("shape:no-cache-directory")
+		rmrf(base)
+	}
 	s.Cases = len(all)
 	s.Nontrivial = len(distinct)
 	s.Rule = "stages with plain file inputs (also nested, also beside a symlink), a directory input, a skip-cache file output, a skip-cache directory output x {commit, status, graph, run, checkout, commit again} x strategies x cache placement; inputs and skip-cache artifacts must be physically untouched, read-only commands must leave the project identical; every case is non-trivial; distinct by (shape, strategy, workspace)"
